@@ -47,11 +47,9 @@ Definition code_encode {K : Scalar} (h : K) (isz negl : K -> bool) (n : nat) (op
   remove_zero_weight_strings negl
     (enc_dim (gen_jw_params h) n (gen_jw_loop h isz n (gen_jw_tab true n) (gen_jw_tab false n) op)).
 
-Theorem C11_code_loop_is_the_model :
-  forall (K : Scalar) (h : K) (isz negl : K -> bool) n (op : list (term K)),
-    code_encode h isz negl n op = encode (gen_jw_params h) (code_isz isz) negl n op.
+Lemma code_raw_is_the_model (K : Scalar) (h : K) (isz : K -> bool) n (op : list (term K)) :
+  gen_jw_loop h isz n (gen_jw_tab true n) (gen_jw_tab false n) op = enc_raw (gen_jw_params h) (code_isz isz) n op.
 Proof.
-  intros K h isz negl n op. unfold code_encode, encode. do 2 f_equal.
   unfold gen_jw_loop, enc_raw.
   apply fold_left_ext_in. intros acc t _. unfold enc_term.
   apply fold_left_ext_in. intros acc' idx _. cbv [code_isz gen_jw_skips_zero]. cbv zeta.
@@ -61,6 +59,11 @@ Proof.
     by (intros a [[|] j] _; reflexivity).
   reflexivity.
 Qed.
+
+Theorem C11_code_loop_is_the_model :
+  forall (K : Scalar) (h : K) (isz negl : K -> bool) n (op : list (term K)),
+    code_encode h isz negl n op = encode (gen_jw_params h) (code_isz isz) negl n op.
+Proof. intros. unfold code_encode, encode. rewrite code_raw_is_the_model. reflexivity. Qed.
 Print Assumptions C11_code_loop_is_the_model.
 
 Lemma code_isz_ok {K : Scalar} (isz : K -> bool) :
@@ -141,17 +144,7 @@ Theorem C11_code_encoder_reproduces_the_operator :
     /\ ((forall w, negl w = true -> w = s0) -> meq n (opmatrix (code_encode h isz negl n op)) (op_matrix n op)).
 Proof.
   intros K L h isz negl n op Hh Hz. cbv zeta.
-  pose proof (C11_code_loop_is_the_model K h isz (fun _ => false) n op) as E0.
-  assert (E : enc_dim (gen_jw_params h) n (gen_jw_loop h isz n (gen_jw_tab true n) (gen_jw_tab false n) op)
-              = enc_dim (gen_jw_params h) n (enc_raw (gen_jw_params h) (code_isz isz) n op)).
-  { unfold code_encode, encode in E0.
-    assert (N : forall l : list (wstr (K:=K)), remove_zero_weight_strings (fun _ => false) l = l).
-    { intros l. unfold remove_zero_weight_strings.
-      assert (G : forall r len, rzws_aux (K:=K) (fun _ => false) r len = r)
-        by (induction r as [|w r IH]; intros len; cbn; [reflexivity|rewrite IH; reflexivity]).
-      rewrite G. apply rev_involutive. }
-    rewrite !N in E0. exact E0. }
-  rewrite E, C11_code_loop_is_the_model. split.
+  rewrite C11_code_loop_is_the_model, code_raw_is_the_model. split.
   - apply (C11_encoded_matrix_up_to_pruned_strings K L h (code_isz isz) negl n op Hh (code_isz_ok isz Hz)).
   - intros Hn. apply (C11_encoded_matrix_is_operator_matrix K L h (code_isz isz) negl n op Hh (code_isz_ok isz Hz) Hn).
 Qed.
